@@ -42,7 +42,8 @@ CLAIMED["C02"] = dict(
          "of finishedCheck (incl. replay after sleeping), exactly one disposition per ready component, effect order in "
          "_fake_finish_with_state, the finish() handshake of ComponentState (the final-state setter is subscribed to "
          "notifyPostMortem before any POSTMORTEM trigger; every path sets or subscribes the requested state), verdict "
-         "computation in Controller.run, precedence in StageState.state and the "
+         "computation in Controller.run, precedence in StageState.state, decisions by universal rules and launches only with "
+         "all producers observed, and the "
          "shutdown-propagation table. Decides the obligations without which some ordering leaves a component pending "
          "or in a rule-violating state; does not explore interleavings.",
     technique="statement CFG with handler/finally modelling: must-pass-through, per-path call counting, branch-table "
@@ -91,15 +92,18 @@ CLAIMED["C05"] = dict(
          "(sibling cross-check, repo-wide in the DoWhile modules), constructor/parser agreement of the '<i>#<name>' "
          "format, loop-carried inputs rewritten to i-1 only for i>0 and not for loopref/loopoutput, no stage-offset drift "
          "in stored loop bindings, deep copy + persistence in next-iteration, anchored rewriting, loop state from the "
-         "numeric maximum. Holds for every iteration count because it constrains the comparison, not sampled counts.",
-    technique="sibling cross-check lint over sort keys, format/parser agreement, CFG edge-dominance, SUB",
+         "numeric maximum, aggregate references ordered numerically by producer or consumer, and the placeholder's "
+         "instance list modified only inside graph.py (flow-sensitive alias analysis of its readers). Holds for every iteration count because it constrains the comparison, not sampled counts.",
+    technique="sibling cross-check lint over sort keys, format/parser agreement, CFG edge-dominance, SUB, "
+              "reaching-definition alias analysis (who-may-write)",
     design="3/C05")
 CLAIMED["C10"] = dict(
     text="Decides the structural necessary condition of exact substitution in resolveArguments: every content-based "
          "substitution of a reference spelling is escaped and anchored on both sides (then declaration order cannot "
          "matter), the replacement is the value resolved from the same reference, the argument string is rewritten "
-         "nowhere else, and the stage-less relative spelling is substituted only on the side where the reference's "
-         "absolute spelling was not found. The four str.replace sites that violated it were a genuine, reproduced defect and were repaired.",
+         "nowhere else, the stage-less relative spelling is used only on the side where the reference's absolute "
+         "spelling was not found, values are inserted verbatim (callable), and inserted text is never rescanned (one pass "
+         "outside the loop over the references). The four str.replace sites that violated it were a genuine, reproduced defect and were repaired.",
     technique="substitution-site lint with pattern-shape analysis (SUB), local def-use of replacement values, CFG edge-dominance",
     design="3/C10")
 CLAIMED["C19"] = dict(
@@ -198,7 +202,8 @@ CLAIMED["C07"] = dict(
          "unreplicated description; $import components and the selected platform's override are kept; iteration 0 is "
          "not re-created for instances while the document is still registered; every new iteration is persisted after "
          "its components were added; writer/generator/loader agree on file names; user variables are patched in before "
-         "the copy that is stored is taken; the flattening of the four variable scopes in instance() lets the same "
+         "the copy that is stored is taken; the dumped object is instance()'s output passed through "
+         "key-preserving functions only; the flattening of the four variable scopes in instance() lets the same "
          "scope win as the live resolver get_component_variables for all 16+4 scope-membership patterns of a name "
          "(abstract interpretation of the dictionary layering). Equality of resolved configurations after a reload is not decided.",
     technique="writer/schema key-set agreement, CFG edge-dominance and statement-order (must-pass-through) checks, "
@@ -213,7 +218,7 @@ CLAIMED["C11"] = dict(
          "key, wrong type, dangling reference, duplicates, cycle, undefined variable: detector exists and is reachable "
          "from the loader; the graph sorted topologically in propagate_replicate receives an edge for every component "
          "reference), defaults are admitted by the closed schema, and every component is resolved inside a "
-         "recording catch-all. Implicit exceptions outside try blocks and front-end work before this loader are outside "
+         "recording catch-all; the undefined-variable detector is strict (C04.R5/R8 analysis re-used). Implicit exceptions outside try blocks and front-end work before this loader are outside "
          "the model; acceptance => usability for all documents is not decided.",
     technique="explicit-raise escape analysis over a name-resolved call graph, call-graph reachability of detectors, "
               "table agreement, CFG must-pass-through",
@@ -224,7 +229,9 @@ CLAIMED["C06"] = dict(
          "namespace_to_flowir over dsl.py (only DSLInvalidError leaves it; one value-infeasible edge frozen with its reason "
          "and re-checked) and its conversion in DSLExperimentConfiguration; every collected error carries a location; "
          "parameter substitution by match span with the inserted text skipped; component names numbered over the ordered "
-         "components and checked for uniqueness before use (a genuine collision defect was repaired). That the "
+         "components and checked for uniqueness before use (a genuine collision defect was repaired); the ignore list of "
+         "replace_parameter_references is the component's own variables only; OutputReference.split matches step locations "
+         "component by component. That the "
          "producer/consumer relation equals the flattened reference relation for all namespaces and that the result is "
          "accepted by the FlowIR validator need execution and are not decided.",
     technique="explicit-raise escape analysis over a name-resolved call graph, error-collection lint, SUB, naming-loop "
